@@ -97,6 +97,14 @@ def _linear(n, t_text, h_text, sign):
     return None
 
 
+def _sentinel_free(program):
+    init = program.method('CoroutineProcessor', '__init__')
+    aq = [n for n in ast.walk(init.node) if isinstance(n, ast.Assign)
+          and any(norm(t) == AQ for t in n.targets)]
+    return len(aq) == 1 and norm(aq[0].value) in (
+        'deque()', 'collections.deque()')
+
+
 def _order_field(program):
     """(ordering field, generator field position info) of the wait record."""
     wg = program.cls('_WaitingGenerator')
@@ -466,7 +474,15 @@ def run(program, rep, tier, sleep_only=False):
                                      'timer >= head.wait_time'),
                         ('step', 'one next() and one rotate/popleft per '
                                  'iteration; sentinel discipline')):
-        if rule in bad:
+        if rule == 'step' and _sentinel_free(program):
+            # frames delimited by counting instead of by the None sentinel:
+            # a different scheme, which the sentinel discipline cannot judge
+            rep.inconclusive('C08.step', site, 'process(): active loop',
+                             'the active deque is created empty (no None '
+                             'sentinel marks the end of a frame): the frame '
+                             'is delimited some other way, which the '
+                             'sentinel rules do not model')
+        elif rule in bad:
             node, why = bad[rule]
             rep.bad(f'C08.{rule}', site, node, why,
                     line=getattr(node, 'lineno', None))
@@ -616,6 +632,8 @@ def run(program, rep, tier, sleep_only=False):
     ok = len(aq) == 1 and norm(aq[0].value) in ('deque((None,))',
                                                 'deque([None])',
                                                 'collections.deque((None,))')
+    if _sentinel_free(program):
+        return
     rep.check(ok, 'C08.step', init.where, aq[0] if aq else '__init__',
               'the active deque starts with exactly one sentinel',
               'the active deque is not initialised with exactly one None '
